@@ -5,6 +5,12 @@ import (
 	"fmt"
 )
 
+// A block can contain a block that (through inheritance) contains the first
+// one again; the nesting of blocks being rendered is therefore limited.
+const maxBlockDepth = 1000
+
+type blockDepthKey struct{}
+
 type tagBlockNode struct {
 	name string
 }
@@ -39,6 +45,13 @@ func (node *tagBlockNode) Execute(ctx *ExecutionContext, writer TemplateWriter) 
 	}
 
 	blockWrapper := blockWrappers[lenBlockWrappers-1]
+
+	depth, _ := ctx.state()[blockDepthKey{}].(int)
+	if depth >= maxBlockDepth {
+		return ctx.Error(fmt.Sprintf("maximum block nesting depth reached (max is %v)", maxBlockDepth), nil)
+	}
+	ctx.state()[blockDepthKey{}] = depth + 1
+	defer func() { ctx.state()[blockDepthKey{}] = depth }()
 
 	// "block" refers to this block while its body is rendered; afterwards it
 	// refers again to the enclosing block (if any), so that block.Super still
